@@ -22,6 +22,8 @@ def _open(name, mode='r', *a, **k):
     if 'w' in mode:
         _FILES[name] = b''
         return _W(name)
+    if name not in _FILES:
+        raise FileNotFoundError(2, 'No such file or directory', name)
     return io.BytesIO(_FILES[name])
 
 
@@ -49,6 +51,7 @@ def cond_roundtrip_leaves(a: Leaf, b: Leaf) -> bool:
     pre: _small(a, 2) and _small(b, 2)
     post: _
     """
+    _FILES.clear()
     v = {'signatures': {}, 'signed': {'x': a, 'l': [b]}}
     C.write_metadata_to_file(v, 'f')
     raw = _FILES['f']
@@ -61,6 +64,7 @@ def cond_roundtrip_whole_floats(i: int) -> bool:
     pre: -10**15 < i < 10**15
     post: _
     """
+    _FILES.clear()
     v = {'threshold': float(i), 'version': i}
     C.write_metadata_to_file(v, 'g')
     back = C.load_metadata_from_file('g')
@@ -72,6 +76,7 @@ def cond_overwrite_equal_but_different(i: int) -> bool:
     pre: 0 <= i <= 3
     post: _
     """
+    _FILES.clear()
     C.write_metadata_to_file({'threshold': float(i), 'final': bool(i)}, 'h')
     v2 = {'threshold': i, 'final': i}
     C.write_metadata_to_file(v2, 'h')
